@@ -1,6 +1,7 @@
 package main
 
 import (
+	"go/constant"
 	"fmt"
 	"go/token"
 	"go/types"
@@ -627,6 +628,43 @@ func orTerms(v ssa.Value, bufMatch func(ssa.Value) bool) (map[int]int, bool) {
 		case *ssa.BinOp:
 			if x.Op == token.OR || x.Op == token.ADD {
 				return rec(x.X) && rec(x.Y)
+			}
+			if x.Op == token.AND {
+				// wide read masked down to fewer bytes: Uint64(b[0:8]) & 0x0000FFFFFFFFFFFF keeps bytes 0..5
+				val, mk := x.X, x.Y
+				if _, isC := val.(*ssa.Const); isC {
+					val, mk = mk, val
+				}
+				mc, isC := mk.(*ssa.Const)
+				if !isC || mc.Value == nil {
+					return false
+				}
+				mask, exact := constant.Uint64Val(constant.ToInt(mc.Value))
+				if !exact {
+					return false
+				}
+				sub, okS := orTerms(val, bufMatch)
+				if !okS {
+					return false
+				}
+				for i, sh := range sub {
+					if sh < 0 || sh > 56 {
+						return false
+					}
+					bits := uint64(0xFF) << uint(sh)
+					switch mask & bits {
+					case bits:
+						if _, dup := out[i]; dup {
+							return false
+						}
+						out[i] = sh
+					case 0:
+						// masked away entirely
+					default:
+						return false
+					}
+				}
+				return true
 			}
 			if x.Op == token.SHL {
 				s, ok := constInt(x.Y)
